@@ -328,3 +328,23 @@ func fieldOf(v ssa.Value) (owner *types.Named, field string, ok bool) {
 	}
 	return n, st.Field(fa.Field).Name(), true
 }
+
+// heldAllSuffix: the weakest mode in which some lock whose key ends with suffix is held across all configurations.
+func heldAllSuffix(cs cfgSet, suffix string) int {
+	m := 3
+	for _, c := range cs {
+		best := 0
+		for k, mode := range c.held {
+			if strings.HasSuffix(k, suffix) && mode > best {
+				best = mode
+			}
+		}
+		if best < m {
+			m = best
+		}
+	}
+	if m == 3 {
+		return 0
+	}
+	return m
+}
